@@ -212,7 +212,7 @@ func (e *Engine) noteWrite(st *St, obj ObjID, g *T) {
 	if !e.TrackWrites || e.booting > 0 {
 		return
 	}
-	if obj > e.trackLimit {
+	if obj > e.trackLimit && !e.sharedObjs[obj] {
 		return
 	}
 	if e.trackExempt[obj] {
@@ -341,3 +341,36 @@ func init() {
 
 // UF1 applies a named uninterpreted function to one scalar argument.
 func (e *Engine) UF1(name string, arg *T, w int) *T { return e.uf(name, []*T{arg}, w) }
+
+// A tiny in-engine file table: os.WriteFile stores the (symbolic) bytes under a constant name,
+// os.ReadFile returns a copy of them, os.Remove forgets them.
+func init() {
+	builtinIntrinsics["os.WriteFile"] = func(e *Engine, st *St, args []Value, fn *ssa.Function) Value {
+		name, ok := e.ConstStringOf(st, args[0].(*SliceV))
+		if !ok {
+			e.unsupported("os.WriteFile with a symbolic name")
+		}
+		if e.files == nil {
+			e.files = map[string]*SliceV{}
+		}
+		e.files[name] = e.copyBytes(st, args[1].(*SliceV), false)
+		return &IfaceV{Alts: []IfaceAlt{{G: e.S.True}}}
+	}
+	builtinIntrinsics["os.ReadFile"] = func(e *Engine, st *St, args []Value, fn *ssa.Function) Value {
+		name, ok := e.ConstStringOf(st, args[0].(*SliceV))
+		if !ok {
+			e.unsupported("os.ReadFile with a symbolic name")
+		}
+		f, ok := e.files[name]
+		if !ok {
+			return &TupleV{V: []Value{e.Zero(fn.Signature.Results().At(0).Type()), opaqueError(e, st, nil, nil)}}
+		}
+		return &TupleV{V: []Value{e.copyBytes(st, f, false), &IfaceV{Alts: []IfaceAlt{{G: e.S.True}}}}}
+	}
+	builtinIntrinsics["os.Remove"] = func(e *Engine, st *St, args []Value, fn *ssa.Function) Value {
+		if name, ok := e.ConstStringOf(st, args[0].(*SliceV)); ok {
+			delete(e.files, name)
+		}
+		return &IfaceV{Alts: []IfaceAlt{{G: e.S.True}}}
+	}
+}
